@@ -335,13 +335,19 @@ def yq(x):
 
 def settings_yaml(spec):
     L = [f"year: {spec['year']}"]
-    if spec.get('rule_mode'):
+    if 'rule_mode_raw' in spec:
+        # the text after "rule_mode:" as a user might type it; spec['rule_mode'] then holds what it MEANS
+        # (exactly first_match / most_specific, anything else falls back to first_match — config_loader's documented rule)
+        L.append(f"rule_mode: {spec['rule_mode_raw']}")
+    elif spec.get('rule_mode'):
         L.append(f"rule_mode: {spec['rule_mode']}")
     if spec.get('currency_format'):
         L.append(f"currency_format: {yq(spec['currency_format'])}")
     if spec['rules']['kind'] == 'rules':
         L.append('merchants_file: config/merchants.rules')
-    if spec.get('views') is not None:
+    if spec.get('views_file'):
+        L.append(f"views_file: {spec['views_file']}")       # a configured views file that does not exist: no views
+    elif spec.get('views') is not None:
         L.append('views_file: config/views.rules')
     L.append('data_sources:')
     for s in spec['sources']:
@@ -429,12 +435,17 @@ def materialize(spec, root):
     with open(os.path.join(cdir, 'settings.yaml'), 'w', encoding='utf-8') as f:
         f.write(settings_yaml(spec))
     r = spec['rules']
-    if r['kind'] == 'rules':
+    # r['configured_missing']: settings.yaml names config/merchants.rules but the file is not there (=> no rules at all);
+    # r['stray_csv']: a legacy merchant_categories.csv lying in config/ although a merchants_file is configured (=> ignored)
+    if r['kind'] == 'rules' and not r.get('configured_missing'):
         with open(os.path.join(cdir, 'merchants.rules'), 'w', encoding='utf-8') as f:
             f.write(rules_text(r))
     elif r['kind'] == 'csv':
         with open(os.path.join(cdir, 'merchant_categories.csv'), 'w', encoding='utf-8') as f:
             f.write(csv_rules_text(r))
+    if r.get('stray_csv'):
+        with open(os.path.join(cdir, 'merchant_categories.csv'), 'w', encoding='utf-8') as f:
+            f.write(csv_rules_text({'csv': r['stray_csv']}))
     if spec.get('views') is not None:
         with open(os.path.join(cdir, 'views.rules'), 'w', encoding='utf-8') as f:
             f.write(views_text(spec['views']))
@@ -777,6 +788,8 @@ def shrink_budget(spec, still_fails, max_steps=60):
         if changed:
             continue
         for key in ('rules', 'csv', 'variables', 'transforms'):
+            if cur.get('expect'):
+                break       # hand-written expectations describe this very rule set: keep it whole
             for i in range(len(cur['rules'][key])):
                 c = copy.deepcopy(cur)
                 del c['rules'][key][i]
